@@ -9,7 +9,7 @@ mo_extract = importlib.util.module_from_spec(_spec)
 _spec.loader.exec_module(mo_extract)
 
 SPECDIR = os.path.join(vf.SPEC, "queue")
-FLAGS = ["PushTailAcq", "PushHeadRel", "PopHeadAcq", "PopTailRel"]
+FLAGS = ["PushTailAcq", "PushHeadRel", "PopHeadAcq", "PopTailRel", "PushPublishLast", "PopPublishLast"]
 INVS = ["NoDataRace", "FifoExactlyOnce", "CapOk", "IndexOk"]
 
 
@@ -64,7 +64,7 @@ def run(ck):
                 ck.violation("SpscRing.tla with the memory orders of ring_buffer.hpp violates %s (weak accesses: %s)" % (
                     r.violated, ["%s::%s line %d load=%s store=%s" % (t["cls"], t["fn"], t["line"], t["load"], t["store"]) for t in weak]), rp)
         else:
-            if r.violated != "NoDataRace":
+            if r.violated not in ("NoDataRace", "FifoExactlyOnce", "CapOk", "IndexOk"):
                 raise vf.Infra("self-test: SpscRing with %s should violate NoDataRace, got %r" % (name, r.violated))
     for a in ["PBegin", "PLoad", "PDecide", "PWrite", "PPublish", "CBegin", "CLoad", "CDecide", "CRead", "CPublish"]:
         if ck.cov.get("Ring." + a, 0) == 0:
